@@ -54,7 +54,9 @@ pub fn doc_tails() -> Vec<Vec<P>> {
     sub.cfg.header = Some(DocSpec::plain("inner header text"));
     let mut deep = Opts::new(P::Seq(vec![arg_plain("zulu", "deepest argument")]));
     deep.cfg.descr = Some(DocSpec::plain("deepest level"));
-    let sub2 = Opts::new(P::Seq(vec![P::Switch(h(Names::long("whiskey"), "second inner")), P::cmd("deep", deep)]));
+    let mut sub2 = Opts::new(P::Seq(vec![P::Switch(h(Names::long("whiskey"), "second inner")), P::cmd("deep", deep)]));
+    // a version of its own: only this level (not the root, not `deep`) takes --version
+    sub2.cfg.version = Some(DocSpec::plain("2.0-inner"));
     let c1 = P::Cmd { name: "cmd".into(), shorts: vec!['m'], longs: vec!["command-alias".into()], inner: Box::new(sub.clone()), adjacent: false, help: None };
     let c2 = P::Cmd { name: "other".into(), shorts: vec![], longs: vec![], inner: Box::new(sub2), adjacent: false, help: Some(DocSpec::plain("explicit command help")) };
     let c3 = P::Cmd { name: "secret".into(), shorts: vec![], longs: vec![], inner: Box::new(Opts::new(P::Seq(vec![]))), adjacent: false, help: Some(DocSpec::plain("hidden command")) }.hide();
